@@ -96,6 +96,11 @@ def c05(rng, tier, repo):
                                        OpenPGPUnknownSigFailure, OpenPGPUntrustedSigFailure)
         env = O.SystemGPGEnvironment()
         cases = gpg_cases(tier, rng)
+        if tier == 'thorough':
+            # 131 000 status sequences x 3 exit codes with one stub process each would take 1.5 h; every fifth sequence
+            # (all lengths and all positions of every keyword still occur) plus the named ones keeps it under 20 min
+            cases = cases[::5] + [tuple('GVU'), tuple('GVf'), tuple('GVF'), tuple('GVM'), tuple('GVu'), tuple('GVn'),
+                                  tuple('GVUX'), tuple('XGVU'), tuple('GVUR'), tuple('GU'), tuple('VU'), tuple('GV')]
         if tier == 'quick':
             cases = cases[::7] + [tuple('GVU'), tuple('GVf'), tuple('GVF'), tuple('GVM'), tuple('GVu'), tuple('GVn'), tuple('GVF'),
                                   tuple('GVUX'), tuple('XGVU'), tuple('GVUR'), tuple('GU'), tuple('VU'), tuple('GV')]
